@@ -629,6 +629,43 @@ def gen_pool_cases(ctx, rng, n):
                 parked.append(k)
         ops.append("pdrain")
         cases.append({"cat": "pool", "ops": ops, "first_req": first, "reqs": None, "arrivals": arrivals})
+    # ONE handleIncomingData call that carries more than 64 KiB: a large gated POST with followers, and 40 POSTs of 2 KiB
+    for i in range(max(2, n // 15)):
+        ops = ["reset", "route GET %s gate,echo" % hexs(b"/g"), "route POST %s gate,echo" % hexs(b"/p")]
+        first = len(ops)
+        arrivals = []
+        if i % 3 != 2:
+            blen = rng.choice([65400, 65536, 66000, 70000, 131072]) if i > 1 else 70000
+            chunked = rng.choice([None, 8192, 4096]) if i % 2 else None
+            wire, ext = post_request(b"/p?id=0001&pad=x", patterned(blen, i), chunked, extra=[(b"X-Gate", b"1")])
+            wires, exts = [wire], [ext]
+            arrivals.append((1, 1, True))
+            for k in range(2, 2 + rng.range(1, 3)):
+                if rng.chance(2, 3):
+                    g = get_request(b"/g?id=%04d&pad=%s" % (k, b"x" * k), extra=[(b"X-Gate", b"%d" % k)])
+                    arrivals.append((1, k, True))
+                else:
+                    g = get_request(b"/missing", extra=[(b"X-Gate", b"%d" % k)])
+                    arrivals.append((1, k, False))
+                wires.append(g)
+                exts.append(g)
+            nk = len(wires)
+        else:
+            wires, exts = [], []
+            for k in range(1, 41):
+                wire, ext = post_request(b"/p?id=%04d" % k, patterned(2048, k), None, extra=[(b"X-Gate", b"%d" % k)])
+                wires.append(wire)
+                exts.append(ext)
+                arrivals.append((1, k, False))
+            nk = 40
+        ops.append("parrn 1 %s %d %s" % (hexs(b"".join(wires)), nk, " ".join(hexs(e) for e in exts)))
+        order = list(range(1, nk + 1))
+        if rng.chance(1, 2):
+            order.reverse()
+        for k in order[:rng.range(1, len(order))]:
+            ops.append("prel %d" % k)
+        ops.append("pdrain")
+        cases.append({"cat": "pool", "ops": ops, "first_req": first, "reqs": None, "arrivals": arrivals, "large": True})
     return cases
 
 
@@ -658,7 +695,7 @@ def monitor_pool(c, impl):
             bad.append("O1: session %d: %d requests arrived, %d Send commands were issued" % (sid, n, got))
     for sid, lst in sends.items():
         lens = [ln for st, ln in lst if st == "200"]
-        if lens != sorted(lens):
+        if lens != sorted(lens) and not c.get("large"):      # (in the large-delivery cases the response length does not grow with the request number)
             hyp.append("F28")
     return bad, hyp
 
@@ -825,11 +862,89 @@ def e2e_closing_request(rng, rid):
     return build_request(rng, b"GET", b"/big", conn=b"close"), "GET"
 
 
+def patterned(n, seed=0):
+    return bytes((i * 7 + 3 + seed) & 0xFF for i in range(n))
+
+
+def post_request(target, body, chunked=None, extra=None):
+    """(bytes on the wire, bytes the extractor hands to processHttpRequest): for a chunked request the application gets the header
+    section followed by the DECODED body (RFC 9112 7.1; extraction exactness is property C15)"""
+    hs = [(b"Host", b"example.test")] + list(extra or [])
+    if chunked is None:
+        head = b"POST " + target + b" HTTP/1.1\r\n" + b"".join(k + b": " + v + b"\r\n" for k, v in hs + [(b"Content-Length", b"%d" % len(body))]) + b"\r\n"
+        return head + body, head + body
+    head = b"POST " + target + b" HTTP/1.1\r\n" + b"".join(k + b": " + v + b"\r\n" for k, v in hs + [(b"Transfer-Encoding", b"chunked")]) + b"\r\n"
+    wire = b"".join(b"%x\r\n" % len(body[i:i + chunked]) + body[i:i + chunked] + b"\r\n" for i in range(0, len(body), chunked)) + b"0\r\n\r\n"
+    return head + wire, head + body
+
+
+def get_request(target, extra=None):
+    hs = [(b"Host", b"example.test")] + list(extra or [])
+    return b"GET " + target + b" HTTP/1.1\r\n" + b"".join(k + b": " + v + b"\r\n" for k, v in hs) + b"\r\n"
+
+
+def large_pipeline_conn(body_len, chunked, followers, tail=1000, rid=0, pause=40):
+    """One pipelined connection: a POST whose bytes exceed one read / 64 KiB, then `followers` more requests with NO cut between the end of
+    the body and the next request: everything but the last `tail` body bytes goes out first; after a pause the tail and the followers go out
+    in ONE send, so they reach the server in one read (one handleIncomingData pass that starts far into the session buffer)."""
+    wire, ext = post_request(b"/p?id=%d" % rid, patterned(body_len, rid), chunked)
+    reqs = [{"data": wire, "pred_data": ext, "method": "POST"}]
+    for j in range(followers):
+        g = get_request(b"/s0?id=%d" % (rid + 1 + j))
+        reqs.append({"data": g, "method": "GET"})
+    cut = len(wire) - min(tail, len(wire) - 1)
+    blob = b"".join(r["data"] for r in reqs)
+    return {"mode": "pipe", "reqs": reqs, "cuts": None, "writes": [(blob[:cut], pause), (blob[cut:], 0)]}
+
+
+def many_posts_conn(n, size, rid=0):
+    """n POSTs of `size` body bytes in ONE send (several reads of at most 64 KiB on the server, several requests per pass)"""
+    reqs = []
+    for j in range(n):
+        wire, ext = post_request(b"/p?id=%d" % (rid + j), patterned(size, rid + j))
+        reqs.append({"data": wire, "pred_data": ext, "method": "POST"})
+    return {"mode": "pipe", "reqs": reqs, "cuts": None, "writes": [(b"".join(r["data"] for r in reqs), 0)]}
+
+
+def conn_from_corpus(d):
+    k = d["kind"]
+    if k == "large-post-then-followers":
+        return large_pipeline_conn(d["body_len"], d.get("chunked"), d["followers"], d.get("tail", 1000), d.get("rid", 0), d.get("pause_ms", 40))
+    if k == "many-posts-one-send":
+        return many_posts_conn(d["count"], d["body_len"], d.get("rid", 0))
+    raise ValueError("unknown e2e corpus connection kind %r" % k)
+
+
+def fixed_e2e_scenarios():
+    """corpus/C16/*.json with an `e2e` entry: always run, first"""
+    out = []
+    d = corpus_dir()
+    if os.path.isdir(d):
+        for fn in sorted(os.listdir(d)):
+            if fn.endswith(".json"):
+                c = json.load(open(os.path.join(d, fn)))
+                if "e2e" in c:
+                    out.append({"conns": [conn_from_corpus(x) for x in c["e2e"]["conns"]], "corpus": fn})
+    return out
+
+
 def gen_e2e_scenarios(rng, n):
     scen = []
     rid = 0
     for si in range(n):
         conns = []
+        if si % 13 == 5:
+            # pipelining behind a large request / long one-send pipelines: offsets beyond every per-request limit within one pass
+            rid += 50
+            if rng.chance(2, 3):
+                conns.append(large_pipeline_conn(rng.choice([65400, 65536, 65537, 66000, 70000, 131072, 200000]), rng.choice([None, None, 4096, 8192, 65536]),
+                                                 rng.range(1, 3), tail=rng.choice([1, 200, 1000, 5000]), rid=rid, pause=rng.choice([20, 40])))
+            else:
+                conns.append(many_posts_conn(rng.choice([10, 40, 60]), rng.choice([512, 2048, 3000]), rid=rid))
+            if rng.chance(1, 2):
+                conns.append({"mode": "seq", "reqs": [{"data": get_request(b"/s0?id=%d" % (rid + 49)), "method": "GET"}], "cuts": None})
+            scen.append({"conns": conns})
+            continue
         for ci in range(rng.choice([1, 1, 2, 3, 4])):
             mode = rng.choice(["seq", "seq", "pipe", "pipe", "pipe-nodelay"])
             nreq = rng.range(1, 6)
@@ -859,7 +974,7 @@ def predict(ctx, scen_list):
         for c in s["conns"]:
             for r in c["reqs"]:
                 idx.append(r)
-                ops.append("reqw %s" % hexs(r["data"]))
+                ops.append("reqw %s" % hexs(r.get("pred_data", r["data"])))
     out, rc, err = ctx.run_lines(ctx.model_argv(COMPONENT), ops, timeout=900)
     if rc != 0 or len(out) != len(ops):
         raise RuntimeError("model driver failed on e2e predictions rc=%s %s" % (rc, err[-300:]))
@@ -893,6 +1008,11 @@ def conn_spec(c):
             steps.append("w" + hexs(r["data"]))
             acc += lens[i]
             steps.append("a%d" % acc)
+    elif c.get("writes"):
+        for chunk, pause in c["writes"]:
+            steps.append("w" + hexs(chunk))
+            if pause:
+                steps.append("s%d" % pause)
     else:
         blob = b"".join(r["data"] for r in reqs)
         cuts = [0] + (c["cuts"] or []) + [len(blob)]
@@ -1008,7 +1128,7 @@ def judge_conn(c, obs, eof, timed_out, f28_ok, counts):
 
 
 def run_e2e(ctx, hb, rng, n_scen, f28_ok, counts):
-    scen_all = gen_e2e_scenarios(rng, n_scen)
+    scen_all = fixed_e2e_scenarios() + gen_e2e_scenarios(rng, n_scen)
     predict(ctx, scen_all)
     setup = ["reset"] + ["route %s %s %s" % (m, hexs(p), s) for m, p, s in E2E_ROUTES] + ["e2e start"]
     base = len(setup)
@@ -1028,8 +1148,22 @@ def run_e2e(ctx, hb, rng, n_scen, f28_ok, counts):
         for si, s in enumerate(scen):
             li = base + si
             line = out[li] if li < len(out) else "crash:" + str(rc)
-            parts = line.split()
+            parts, dispatched = split_run_line(line)
             ctx.cov["traces_validated_against_impl"] += 1
+            # Cross-check that is independent of the model and of the responses: every request the generator ENCODED on the connections of
+            # this scenario was handed to the worker pool exactly once (the arrivals of the O1 theorems are the requests C15's extractor
+            # delivers; here the count is taken at the ThreadPool's `tp:popped` verification point).  sequential clients stop at the first close.
+            encoded = sum(c["k"] if c["mode"] == "seq" else len(c["reqs"]) for c in s["conns"])
+            if dispatched is not None:
+                counts["dispatch_count_checks"] = counts.get("dispatch_count_checks", 0) + 1
+                if dispatched != encoded and len(parts) == len(s["conns"]):
+                    if reproduces_dispatch(ctx, hb, setup, s, encoded):
+                        reported += 1
+                        ctx.violation("property", "O1: %d requests were encoded on the %d connection(s) of this scenario but %d were dispatched to the worker pool" %
+                                      (encoded, len(s["conns"]), dispatched), {"scenario": scen_json(s), "observed": line[:300], "corpus": s.get("corpus")}, found_input=True,
+                                      cls="property:e2e:dispatch-count")
+                    else:
+                        counts["dispatch_count_not_reproduced"] = counts.get("dispatch_count_not_reproduced", 0) + 1
             for ci, c in enumerate(s["conns"]):
                 nreq += len(c["reqs"])
                 if ci >= len(parts) or parts[ci].count(":") < 2:
@@ -1058,12 +1192,14 @@ def run_e2e(ctx, hb, rng, n_scen, f28_ok, counts):
                     bad = []
                 if bad:
                     reported += 1
-                if bad and ctx.violation_budget("property", bad[0]):
+                ecls = "property:e2e:" + bad[0].split(":")[0] if bad else None      # own reporting class: the end-to-end layer reports its own inputs
+                if bad and ctx.violation_budget("property", bad[0], cls=ecls):
                     ctx.violation("property", bad[0], {"connection": conn_json(c), "observed_hex": hx[:4000], "eof": eof, "timed_out": to, "failures": bad[:5],
-                                                       "routes": [[m, p.decode(), s] for m, p, s in E2E_ROUTES],
-                                                       "expected_by_model": [r["pred_line"][:200] for r in c["reqs"]]}, found_input=True)
+                                                       "dispatched_in_scenario": dispatched, "corpus": s.get("corpus"),
+                                                       "routes": [[m, p.decode(), s_] for m, p, s_ in E2E_ROUTES],
+                                                       "expected_by_model": [r["pred_line"][:200] for r in c["reqs"]]}, found_input=True, cls=ecls)
                 elif bad:
-                    ctx.violation("property", bad[0])
+                    ctx.violation("property", bad[0], cls=ecls)
         counts["e2e_scenarios"] = counts.get("e2e_scenarios", 0) + len(scen)
         if rc != 0:
             reported += 1
@@ -1072,13 +1208,33 @@ def run_e2e(ctx, hb, rng, n_scen, f28_ok, counts):
     counts["e2e_requests"] = counts.get("e2e_requests", 0) + nreq
 
 
+def split_run_line(line):
+    """`e2e run` answer: one `<hex>:<eof>:<timeout>` token per connection and a final `D=<requests dispatched to the pool>`"""
+    parts = line.split()
+    d = None
+    if parts and parts[-1].startswith("D="):
+        try:
+            d = int(parts[-1][2:])
+        except ValueError:
+            d = None
+        parts = parts[:-1]
+    return parts, d
+
+
+def reproduces_dispatch(ctx, hb, setup, s, encoded):
+    line_spec = " ".join(conn_spec(c) for c in s["conns"])
+    ops = setup + ["e2e run 10000 25 " + line_spec] * 2 + ["e2e stop"]
+    out, rc, err = ctx.run_lines([hb], ops, timeout=180)
+    return any(split_run_line(l)[1] != encoded for l in out[len(setup):len(setup) + 2]) or rc != 0
+
+
 def reproduces(ctx, hb, setup, s, ci, f28_ok):
     """Replay one scenario twice (fresh server, 10 s watchdog); True if connection `ci` fails again."""
     line_spec = " ".join(conn_spec(c) for c in s["conns"])
     ops = setup + ["e2e run 10000 25 " + line_spec] * 2 + ["e2e stop"]
     out, rc, err = ctx.run_lines([hb], ops, timeout=120)
     for l in out[len(setup):len(setup) + 2]:
-        parts = l.split()
+        parts, _ = split_run_line(l)
         if ci >= len(parts) or parts[ci].count(":") < 2:
             return True
         hx, eof, to = parts[ci].rsplit(":", 2)
@@ -1090,8 +1246,16 @@ def reproduces(ctx, hb, setup, s, ci, f28_ok):
     return rc != 0
 
 
+def show_req(d):
+    s = d.decode("latin1")
+    return s if len(s) <= 600 else s[:300] + "...(%d bytes)..." % len(s) + s[-120:]
+
+
 def conn_json(c):
-    return {"mode": c["mode"], "cuts": c["cuts"], "requests": [r["data"].decode("latin1") for r in c["reqs"]]}
+    d = {"mode": c["mode"], "cuts": c["cuts"], "requests": [show_req(r["data"]) for r in c["reqs"]]}
+    if c.get("writes"):
+        d["writes"] = ["%d bytes, then pause %d ms" % (len(w), p) for w, p in c["writes"]]
+    return d
 
 
 def scen_json(s):
@@ -1157,13 +1321,13 @@ def replay_findings(ctx, hb, keys):
     try:
         tries = []
         for l in out[base + 1:base + 3]:
-            obs = unhex(l.rsplit(":", 2)[0])
+            obs = unhex(split_run_line(l)[0][0].rsplit(":", 2)[0])
             tries.append("out-of-order" if obs == w_fast + w_slow else "in-order" if obs == w_slow + w_fast else "other")
             if tries[-1] == "other":
                 other.append("F28 witness: the stream is neither of the two orders of the two predicted responses: %r" % obs[:300])
         res["F28"] = "out-of-order" in tries
         res["F28_detail"] = "the two whole predicted responses, per try: %s" % tries
-        hx, eof, to = out[base + 3].rsplit(":", 2)
+        hx, eof, to = split_run_line(out[base + 3])[0][0].rsplit(":", 2)
         if hx.startswith("big:"):
             total = int(hx.split(":")[1])
             data = unhex(hx.split(":")[2])
@@ -1282,7 +1446,11 @@ def run(ctx: Ctx):
     ctx.extra["repo_tree_sha"] = ctx.repo_tree_sha(ANCHOR_FILES)
     ctx.extra["refuted"] = [{"statement": "Iora.C16.O3_statement", "finding": "F28"}, {"statement": "Iora.C16.O4p_statement", "finding": "F31"}]
     ctx.extra["not_proved"] = NOT_PROVED
-    ctx.assumptions += ["one engine Send command is written contiguously and commands of a session are processed in enqueue order (C01)",
+    ctx.assumptions += ["the arrivals of the O1/O2/O3 theorems are the complete requests the server's extractor (handleIncomingData / findChunkedRequestEnd) hands to the pool: "
+                        "that extraction is exact — every encoded request, once, with its decoded body — is property C15's, not proved here; C16 ties it by lockstep "
+                        "(single-read deliveries of 1, 2, 40 requests and of more than 64 KiB through the real handleIncomingData) and by the model-independent "
+                        "dispatch count of every end-to-end scenario (requests encoded by the generator = tasks taken by pool workers, counted at `tp:popped`)",
+                        "one engine Send command is written contiguously and commands of a session are processed in enqueue order (C01)",
                         "every engine command of a worker is issued inside one `_mutex` critical section; the task queue is FIFO (ThreadPool::_tasks is a std::queue popped under its mutex)",
                         "handlers are modelled as functions of (request, pre-filled response) that return or throw; the subclass seams (onUpgradeRequest, onResponseSuppressed) return a value or throw (std::exception or any other type)",
                         "status codes are C++ `int`; the model uses unbounded integers",
